@@ -13,7 +13,8 @@ import z3
 from .relmodel import zand, zor
 from .symx import SymBool, SymInt, floormod
 
-EFN = {"it": "verif_negate_it", "sq": "verif_negate_sq"}  # engine-specific functions (meaning: negation)
+EFN = {"it": "verif_negate_it", "sq": "verif_negate_sq",  # engine-specific functions (meaning: negation)
+       "none": "verif_negate_none"}  # ... and one declared with an empty collection of supporting engine types: no engine supports it
 ARITH = {"neg": "__neg__", "add": "__add__", "sub": "__sub__", "mul": "__mul__"}
 CMP = {"eq": "__eq__", "ne": "__ne__", "lt": "__lt__", "le": "__le__", "gt": "__gt__", "ge": "__ge__"}
 PRED_HEADS = set(CMP) | {"and", "or", "not", "plit", "pref", "inrange", "inseq", "rgt"}
@@ -197,7 +198,7 @@ def lib_of_ast(e, tags, val):
         # a function only one engine kind implements (registered by Env in that kind's `functions` only) and declared so
         from lsst.daf.relation import iteration, sql
 
-        kinds = {"it": (iteration.Engine,), "sq": (sql.Engine,)}[e[2]]
+        kinds = {"it": (iteration.Engine,), "sq": (sql.Engine,), "none": ()}[e[2]]
         return lib_of_ast(e[1], tags, val).method(EFN[e[2]], supporting_engine_types=kinds)
     if h in ("rneg", "rgt"):
         from lsst.daf.relation import iteration, sql
@@ -304,6 +305,8 @@ def lib_supported(e, engine):
                                    PredicateFunction)
 
     if isinstance(e, (ColumnFunction, PredicateFunction)):
+        if e.name == EFN["none"]:
+            return False  # declared (by the harness) with supporting_engine_types=(): what the object remembers of that is under test
         types = e.supporting_engine_types
         if types is not None and not isinstance(engine, tuple(types) if not isinstance(types, type) else types):
             return False
